@@ -42,8 +42,10 @@ import (
 	dbm "github.com/tendermint/tm-db"
 	"github.com/tharsis/ethermint/encoding"
 
+	govtypes "github.com/cosmos/cosmos-sdk/x/gov/types"
 	"github.com/teleport-network/teleport/app"
 	xibcethtypes "github.com/teleport-network/teleport/x/xibc/clients/light-clients/eth/types"
+	tsstypes "github.com/teleport-network/teleport/x/xibc/clients/tss-client/types"
 	xibcclient "github.com/teleport-network/teleport/x/xibc/core/client"
 	clienttypes "github.com/teleport-network/teleport/x/xibc/core/client/types"
 	"github.com/teleport-network/teleport/x/xibc/core/host"
@@ -178,25 +180,29 @@ func c10Parse(f []string) (*c10Hdr, bool) {
 
 // bookkeeping of one client
 type c10Book struct {
-	created  bool
-	chainID  uint64
-	trusting uint64
-	accepted map[common.Hash]*c10Hdr // every header accepted so far in this history (incl. the initial one)
-	lo0      uint64                  // height the client was created at
-	head     common.Hash
+	created      bool
+	chainID      uint64
+	trusting     uint64
+	accepted     map[common.Hash]*c10Hdr // every header accepted so far in this history (incl. the initial one)
+	lo0          uint64                  // height the client was created at
+	head         common.Hash
+	prunedOrigin bool              // a consensus state installed by a proposal has expired and been pruned
+	tss          bool              // a TSS client sits under this name (waiting to be toggled)
+	origin       map[uint64]string // height -> "create" | "upgrade" | "toggle" for the consensus states proposals installed
 }
 
 type c10World struct {
-	app       *app.Teleport
-	base      sdk.Context
-	ctx       sdk.Context
-	hist      []string
-	c10Book           // the client currently addressed
-	name      string  // its chain name
-	cur       string  // "a" | "b"
-	other     c10Book // the other client
-	otherDump string  // its dump when it was left (frame oracle)
-	write     func()  // flushes ctx into base (whole-app restart only)
+	consHeight *clienttypes.Height // `consheight`: the redundant ConsensusState.Height of the next proposal (nil = the header's)
+	app        *app.Teleport
+	base       sdk.Context
+	ctx        sdk.Context
+	hist       []string
+	c10Book            // the client currently addressed
+	name       string  // its chain name
+	cur        string  // "a" | "b"
+	other      c10Book // the other client
+	otherDump  string  // its dump when it was left (frame oracle)
+	write      func()  // flushes ctx into base (whole-app restart only)
 }
 
 func (w *c10World) otherName() string {
@@ -224,14 +230,15 @@ type c10Obs struct {
 	cons    map[uint64][2]string // height -> root hex, time
 	consLo  uint64
 	hasCons bool
-	hdrs    map[string]bool // "height:hash"
+	hdrs    map[string]bool   // "height:hash"
+	rms     map[string]string // "height:root" -> "height:hash"
 	dump    string
 }
 
 func (w *c10World) observe(ctx sdk.Context) c10Obs { return w.observeOf(ctx, w.name) }
 
 func (w *c10World) observeOf(ctx sdk.Context, c10Chain string) c10Obs {
-	o := c10Obs{cons: map[uint64][2]string{}, hdrs: map[string]bool{}}
+	o := c10Obs{cons: map[uint64][2]string{}, hdrs: map[string]bool{}, rms: map[string]string{}}
 	k := w.app.XIBCKeeper.ClientKeeper
 	if _, ok := k.GetClientState(ctx, c10Chain); !ok {
 		o.dump = "-"
@@ -282,6 +289,7 @@ func (w *c10World) observeOf(ctx sdk.Context, c10Chain string) c10Obs {
 		n, h := parseKey(key, xibcethtypes.KeyMainRootPrefix)
 		vn, vh := parseKey(val, xibcethtypes.KeyIndexEthHeaderPrefix)
 		rs = append(rs, kv{n, h, fmt.Sprintf("%d:%s>%d:%s", n, h, vn, vh)})
+		o.rms[fmt.Sprintf("%d:%s", n, h)] = fmt.Sprintf("%d:%s", vn, vh)
 		return false
 	})
 	less := func(a []kv) func(i, j int) bool {
@@ -566,6 +574,52 @@ func (w *c10World) restartApp(r *Rec) string {
 	return "ok " + aA + " | " + aB
 }
 
+// twinsPruned: the history has two accepted headers of equal height and equal state root, and pruning has begun
+func (w *c10World) twinsPruned(consLo uint64) bool {
+	if consLo <= w.lo0 {
+		return false
+	}
+	seen := map[string]common.Hash{}
+	for _, a := range w.accepted {
+		k := fmt.Sprintf("%d:%x", a.Number, a.Root)
+		if o, ok := seen[k]; ok && o != a.Hash {
+			return true
+		}
+		seen[k] = a.Hash
+	}
+	return false
+}
+
+// index-consistency oracle on the raw store: every consensus state kept on the head's ancestry has its header-index entry and its
+// root-main entry under the HEADER's own height (own computation from the headers accepted / installed by proposals)
+func (w *c10World) indexOracle(r *Rec) {
+	if !w.created {
+		return
+	}
+	o := w.observe(w.ctx)
+	for a := w.accepted[w.head]; a != nil; a = w.accepted[common.BytesToHash(a.ParentHash)] {
+		if _, kept := o.cons[a.Number]; !kept {
+			continue
+		}
+		origin := w.origin[a.Number]
+		if origin == "" {
+			origin = "update"
+		}
+		hk := fmt.Sprintf("%d:%s", a.Number, hex.EncodeToString(a.Hash[:]))
+		rk := fmt.Sprintf("%d:%s", a.Number, hex.EncodeToString(common.BytesToHash(a.Root).Bytes()))
+		v, okR := o.rms[rk]
+		if !o.hdrs[hk] || !okR || !strings.HasPrefix(v, fmt.Sprintf("%d:", a.Number)) {
+			sig := "C10:index-entry-misplaced:" + origin
+			if origin == "update" && w.twinsPruned(o.consLo) {
+				sig = "C10:root-twins-under-pruning:index-entry-missing"
+			}
+			r.Find(Finding{Sig: sig, What: fmt.Sprintf("the consensus state at height %d (installed by %s) has no header-index / root-main entry under the header's own height (header entry %v, root-main entry %q): its pruning will fail and wedge the client", a.Number, origin, o.hdrs[hk], v),
+				Ops: w.histCopy(), Obs: o.dump, Req: "ethHeaderIndex/<hash><height> and ethRootMain/<root><height> with the header's height"})
+		}
+		r.Count("index.checked")
+	}
+}
+
 func c10ErrClass(msg string) string {
 	switch {
 	case strings.Contains(msg, "in RestrictChain"):
@@ -605,9 +659,18 @@ func (w *c10World) apply(r *Rec, op string) string {
 		// a client is created by a proposal, whose ValidateBasic runs ClientState.Validate (= the creation header's ValidateBasic)
 		wantOK := !(h.Rev == 0 && h.Number == 0) && h.GasLimit <= 1<<63-1 && h.GasUsed <= h.GasLimit &&
 			(h.Number == 0 || new(big.Int).And(h.Difficulty, new(big.Int).SetUint64(^uint64(0))).Sign() != 0)
+		if w.consHeight != nil {
+			cons.Height = *w.consHeight
+			w.consHeight = nil
+		}
+		// as governance would: CreateClientProposal → ValidateBasic (ClientState.Validate, ConsensusState.ValidateBasic) → handler
 		var verr error
-		if pan, msg := safely(func() { verr = cs.Validate() }); pan {
-			r.Find(Finding{Sig: "C10:create-panic", What: "ClientState.Validate panics: " + msg, Ops: w.histCopy(), Obs: "panic", Req: "ok or error"})
+		prop, perr := clienttypes.NewCreateClientProposal("t", "d", w.name, cs, cons)
+		if perr != nil {
+			r.t.Fatalf("proposal: %v", perr)
+		}
+		if pan, msg := safely(func() { verr = prop.ValidateBasic() }); pan {
+			r.Find(Finding{Sig: "C10:create-panic", What: "CreateClientProposal.ValidateBasic panics: " + msg, Ops: w.histCopy(), Obs: "panic", Req: "ok or error"})
 			verr = fmt.Errorf("panic")
 		}
 		if (verr == nil) != wantOK {
@@ -615,7 +678,7 @@ func (w *c10World) apply(r *Rec, op string) string {
 			if verr == nil {
 				sig = "C10:invalid-creation-accepted"
 			}
-			r.Find(Finding{Sig: sig, What: fmt.Sprintf("ClientState.Validate of the creation header (base fee %s, gas %d/%d, difficulty %s): %v", h.BaseFee, h.GasUsed, h.GasLimit, h.Difficulty, verr),
+			r.Find(Finding{Sig: sig, What: fmt.Sprintf("CreateClientProposal.ValidateBasic for the creation header (base fee %s, gas %d/%d, difficulty %s): %v", h.BaseFee, h.GasUsed, h.GasLimit, h.Difficulty, verr),
 				Ops: w.histCopy(), Obs: fmt.Sprint(verr), Req: fmt.Sprint("accepted = ", wantOK)})
 		}
 		if verr != nil && !wantOK { // (a refusal of a rule-abiding creation header is reported above; the history then continues on a
@@ -627,14 +690,127 @@ func (w *c10World) apply(r *Rec, op string) string {
 		if h.BaseFee.Sign() == 0 {
 			r.Count("basefee.zero.creation")
 		}
-		if err := w.app.XIBCKeeper.ClientKeeper.CreateClient(w.ctx, w.name, cs, cons); err != nil {
-			r.t.Fatalf("CreateClient: %v", err)
+		var cerr error
+		if verr == nil {
+			cerr = xibcclient.NewClientProposalHandler(w.app.XIBCKeeper.ClientKeeper)(w.ctx, prop)
+		} else {
+			cerr = w.app.XIBCKeeper.ClientKeeper.CreateClient(w.ctx, w.name, cs, cons)
 		}
+		if cerr != nil {
+			r.t.Fatalf("create: %v", cerr)
+		}
+		w.origin = map[uint64]string{h.Number: "create"}
 		w.accepted[h.Hash] = h
 		w.head = h.Hash
 		w.lo0 = h.Number
 		w.frame(r, "create")
+		w.indexOracle(r)
 		return "ok " + w.observe(w.ctx).dump
+	case "world":
+		w.ctx, w.write = w.base.CacheContext()
+		w.hist = []string{op}
+		w.cur, w.name = "a", c10Names["a"]
+		w.c10Book, w.other, w.otherDump, w.consHeight = c10Book{}, c10Book{}, "-", nil
+		return "ok"
+	case "consheight":
+		w.consHeight = nil
+		if rn := strings.SplitN(f[1], "-", 2); len(rn) == 2 {
+			a, _ := strconv.ParseUint(rn[0], 10, 64)
+			b, _ := strconv.ParseUint(rn[1], 10, 64)
+			hh := clienttypes.NewHeight(a, b)
+			w.consHeight = &hh
+		}
+		return "ok"
+	case "tss":
+		if w.created || w.tss {
+			return "err"
+		}
+		prop, _ := clienttypes.NewCreateClientProposal("t", "d", w.name, &tsstypes.ClientState{TssAddress: sdk.AccAddress(make([]byte, 20)).String(), Pubkey: []byte("pk"), Threshold: 1}, &tsstypes.ConsensusState{})
+		if err := prop.ValidateBasic(); err != nil {
+			r.t.Fatalf("tss proposal: %v", err)
+		}
+		if err := xibcclient.NewClientProposalHandler(w.app.XIBCKeeper.ClientKeeper)(w.ctx, prop); err != nil {
+			r.t.Fatalf("tss create: %v", err)
+		}
+		w.c10Book = c10Book{tss: true}
+		return "ok"
+	case "upgrade", "toggle":
+		chain, _ := strconv.ParseUint(f[1], 10, 64)
+		tr, _ := strconv.ParseUint(f[2], 10, 64)
+		h, ok := c10Parse(f[3:])
+		if !ok {
+			r.t.Fatalf("bad header in %q", op)
+		}
+		p := h.proto()
+		cs := &xibcethtypes.ClientState{Header: p, ChainId: chain, ContractAddress: []byte("0x00"), TrustingPeriod: tr, TimeDelay: 0, BlockDelay: 1}
+		cons := &xibcethtypes.ConsensusState{Timestamp: h.Time, Height: p.Height, Root: h.Root}
+		class := "equal"
+		if w.consHeight != nil {
+			cons.Height = *w.consHeight
+			switch {
+			case w.consHeight.IsZero():
+				class = "unset"
+			case w.consHeight.RevisionNumber != h.Rev:
+				class = "other-revision"
+			case w.consHeight.RevisionHeight < h.Number:
+				class = "lower"
+			case w.consHeight.RevisionHeight > h.Number:
+				class = "higher"
+			}
+			w.consHeight = nil
+		}
+		var content govtypes.Content
+		if f[0] == "upgrade" {
+			content, _ = clienttypes.NewUpgradeClientProposal("t", "d", w.name, cs, cons)
+		} else {
+			content, _ = clienttypes.NewToggleClientProposal("t", "d", w.name, cs, cons)
+		}
+		wantOK := !(h.Rev == 0 && h.Number == 0) && h.GasLimit <= 1<<63-1 && h.GasUsed <= h.GasLimit &&
+			(h.Number == 0 || new(big.Int).And(h.Difficulty, new(big.Int).SetUint64(^uint64(0))).Sign() != 0)
+		if f[0] == "upgrade" {
+			wantOK = wantOK && w.created
+		} else {
+			wantOK = wantOK && w.tss
+		}
+		var err error
+		before := w.observe(w.ctx)
+		pan, msg := safely(func() {
+			if err = content.ValidateBasic(); err != nil {
+				return
+			}
+			cctx, write := w.ctx.CacheContext()
+			if err = xibcclient.NewClientProposalHandler(w.app.XIBCKeeper.ClientKeeper)(cctx, content); err == nil {
+				write()
+			}
+		})
+		if pan {
+			r.Find(Finding{Sig: "C10:" + f[0] + "-panic", What: f[0] + " proposal panics: " + msg, Ops: w.histCopy(), Obs: "panic", Req: "ok or error"})
+			return "panic"
+		}
+		if (err == nil) != wantOK {
+			r.Find(Finding{Sig: "C10:" + f[0] + "-verdict", What: fmt.Sprintf("%s proposal (consensus-state height class %s): %v", f[0], class, err), Ops: w.histCopy(), Obs: fmt.Sprint(err), Req: fmt.Sprint("accepted = ", wantOK)})
+		}
+		if err != nil {
+			r.Count(f[0] + ".rejected")
+			return "err"
+		}
+		r.Count(f[0] + ".cons-height." + class)
+		if f[0] == "toggle" {
+			w.c10Book = c10Book{created: true, accepted: map[common.Hash]*c10Hdr{}, origin: map[uint64]string{}}
+			w.lo0 = h.Number
+		}
+		w.chainID, w.trusting = chain, tr
+		w.accepted[h.Hash] = h
+		w.head = h.Hash
+		w.origin[h.Number] = f[0]
+		w.frame(r, f[0])
+		after := w.observe(w.ctx)
+		_ = before
+		if c, ok := after.cons[h.Number]; !ok || c[0] != hex.EncodeToString(common.BytesToHash(h.Root).Bytes()) {
+			r.Find(Finding{Sig: "C10:" + f[0] + "-head-consensus-state", What: "after the " + f[0] + " the consensus state at the new head's height is not the proposal's", Ops: w.histCopy(), Obs: fmt.Sprint(c), Req: hex.EncodeToString(h.Root)})
+		}
+		w.indexOracle(r)
+		return "ok " + after.dump
 	case "use":
 		if f[1] != w.cur {
 			w.otherDump = w.observe(w.ctx).dump
@@ -733,6 +909,11 @@ func (w *c10World) apply(r *Rec, op string) string {
 			if kind != "extension" && c10ErrClass(msg) == "restrictchain" {
 				sig = "C10:restrictchain-reorg-rejected"
 			}
+			if w.twinsPruned(before.consLo) {
+				// KNOWN FINDING (docs/C10.md): with two accepted headers of equal height and equal state root the prune pass, which finds
+				// the header through the (root, height) index, deletes the wrong one / the wrong index entry
+				sig = "C10:root-twins-under-pruning:valid-child-rejected"
+			}
 			r.Find(Finding{Sig: sig, What: fmt.Sprintf("valid child (height %d) of the stored header %x (fork height %d, lowest consensus state %d) is rejected: %s", h.Number, parent.Hash[:4], fork, before.consLo, msg),
 				Ops: w.histCopy(), Obs: res + ": " + msg, Req: "accepted (never_wedged)"})
 		}
@@ -823,7 +1004,16 @@ func (w *c10World) apply(r *Rec, op string) string {
 		r.Count("accepted." + kind)
 		if before.hasCons && after.hasCons && after.consLo > before.consLo {
 			r.Count("prune.deleted")
+			if o, ok := w.origin[before.consLo]; ok {
+				r.Count("prune.expired-" + o + "-state")
+				delete(w.origin, before.consLo)
+				w.prunedOrigin = true
+			}
 		}
+		if w.prunedOrigin && kind == "extension" {
+			r.Count("valid-after-expired-proposal-state.accepted")
+		}
+		w.indexOracle(r)
 		if n > 1 {
 			r.Count("ancestry.checked")
 		}
@@ -1408,6 +1598,71 @@ func (g *c10Gen) difficultyGridHistory(cfg [3]uint64) []string {
 	return ops
 }
 
+// create / upgrade / toggle proposals whose consensus state carries a redundant Height of class cls (0 equal, 1 unset, 2 lower,
+// 3 higher, 4 other revision), followed by a linear + forked history with a short trusting period that runs until the state the
+// proposal installed has expired and been pruned while the head is fresh, and on afterwards
+func (g *c10Gen) proposalHistory(kind string, cls int, connected bool) []string {
+	rng := g.r.Rng
+	T := uint64(60)
+	t0 := uint64(1700000000)
+	consh := func(h *c10Hdr) []string {
+		switch cls {
+		case 1:
+			return []string{"consheight 0-0"}
+		case 2:
+			return []string{fmt.Sprintf("consheight %d-%d", h.Rev, h.Number-1)}
+		case 3:
+			return []string{fmt.Sprintf("consheight %d-%d", h.Rev, h.Number+7)}
+		case 4:
+			return []string{fmt.Sprintf("consheight %d-%d", h.Rev+3, h.Number)}
+		}
+		return nil
+	}
+	gen := g.genesisWith(uint64(20+rng.Intn(500)), t0, 30000000, 15000000, big.NewInt(1000000000))
+	var ops []string
+	start := gen
+	switch kind {
+	case "create":
+		ops = append(consh(gen), g.reset(4, T, gen))
+	case "toggle":
+		ops = append([]string{"world", "tss"}, consh(gen)...)
+		ops = append(ops, fmt.Sprintf("toggle 4 %d %s", T, gen))
+	default: // upgrade of a client that already has a short history
+		ops = []string{g.reset(4, T, gen)}
+		tip := gen
+		for i := 0; i < 2; i++ {
+			c := g.child(tip, 10)
+			ops = append(ops, c10Op("upd", c.Time, c))
+			tip = c
+		}
+		var u *c10Hdr
+		if connected {
+			u = g.child(tip, 400) // a child of the head far in the future (no header check in an upgrade)
+		} else {
+			u = g.genesisWith(tip.Number+40, tip.Time+400, 30000000, 15000000, big.NewInt(1000000000))
+		}
+		ops = append(ops, consh(u)...)
+		ops = append(ops, fmt.Sprintf("upgrade 4 %d %s", T, u))
+		start = u
+	}
+	tip := start
+	for i := 0; i < 16; i++ {
+		c := g.child(tip, 10)
+		now := c.Time + uint64(rng.Intn(5))
+		if i == 5 || i == 10 { // a competing sibling takes over
+			sib := g.child(tip, 11)
+			ops = append(ops, c10Op("upd", now, c), c10Op("upd", now+1, sib))
+			c = sib
+		} else {
+			ops = append(ops, c10Op("upd", now, c))
+		}
+		ops = append(ops, c10Op("probe", now+1, g.child(c, 3)), c10Op("probe", now+1, g.child(tip, 12)))
+		tip = c
+	}
+	g.r.Count("history.proposal." + kind)
+	return ops
+}
+
 // creation headers: rule-abiding edge cases and the ones ClientState.Validate must refuse
 func (g *c10Gen) creationHistory() []string {
 	t0 := uint64(1700000000)
@@ -1826,6 +2081,19 @@ func TestC10(t *testing.T) {
 		r.Count("history.zerofee")
 	}
 	run(g.creationHistory())
+	{ // proposals with redundant consensus-state fields; the installed state expires and is pruned
+		reps := 1
+		if thorough {
+			reps = 2
+		}
+		for i := 0; i < reps; i++ {
+			for cls := 0; cls < 5; cls++ {
+				run(g.proposalHistory("create", cls, true))
+				run(g.proposalHistory("upgrade", cls, cls%2 == i%2))
+				run(g.proposalHistory("toggle", cls, true))
+			}
+		}
+	}
 	{
 		cfgs := c10DiffConfigs()
 		if thorough { // every parent class, spread over the shards
